@@ -68,7 +68,11 @@ pub fn gen_file(fmt: &str, rng: &mut Rng, n: usize) -> (String, Vec<String>) {
         let id = format!("MA{:04}.{}", rng.below(10000), 1 + rng.below(9));
         let name = format!("NAME{}", k);
         // counts[i][sym] with sym in A C T G order of Dna::symbols() (index 0..4), N = 0
-        let counts: Vec<[u32; 4]> = (0..w).map(|_| [rng.below(50) as u32, rng.below(50) as u32, rng.below(50) as u32, rng.below(50) as u32]).collect();
+        // count magnitudes: mostly small; for the two JASPAR formats (exact integer parsers) sometimes counts that need up to 32 bits,
+        // incl. values no f32 can represent; TRANSFAC keeps its table as f32, so it stays below 2^24 there
+        let big = (fmt == "jaspar" || fmt == "jaspar16") && rng.below(4) == 0;
+        let mut cnt = |rng: &mut Rng| -> u32 { if big { [16777217u32, 64755937, 2147483647, 4294967295, 33554431, 100000][rng.below(6)].wrapping_sub(rng.below(3) as u32) } else if fmt == "transfac" && rng.below(8) == 0 { 16777215 - rng.below(1000) as u32 } else { rng.below(50) as u32 } };
+        let counts: Vec<[u32; 4]> = (0..w).map(|_| [cnt(rng), cnt(rng), cnt(rng), cnt(rng)]).collect();
         let idx = |c: char| Dna::symbols().iter().position(|s| s.as_char() == c).unwrap();
         let mut m = String::new();
         for i in 0..w { let mut row = [0u32; 5]; for (j, ch) in ['A', 'C', 'G', 'T'].iter().enumerate() { row[idx(*ch)] = counts[i][j]; } for j in 0..5 { m.push_str(&format!("{},", row[j])); } m.push(';'); }
